@@ -100,6 +100,7 @@ type op struct {
 	host   string // "" = host1
 	source string // "" = src
 	pad    int    // extra payload bytes (records over 1024 bytes live in pooled backing buffers)
+	shape  string // kind "bad": which malformed shape; kind "overlong": -
 }
 
 type params struct {
@@ -120,11 +121,13 @@ type params struct {
 	flushAlt    bool   // a Flush() after each line is an explorer choice
 	advances    int
 	delayB      bool
+	retryInterval time.Duration // defs.ForwarderRetryInterval (default 10 s): below the 1 s ticker a failed session is followed by the next one within the bound
 	sinkBytes   int // defs.IntermediateBufferMaxTotalBytes (bytes per batch, same two places), default 4 MiB
 	sinkBatch   int // defs.IntermediateBufferMaxNumLogs (records per batch at the input and per key set at the orchestrator sink), default 500
 }
 
 type lineRec struct {
+	gen       int
 	conn, seq int
 	app       string
 	host      string
@@ -144,6 +147,12 @@ type transmit struct {
 }
 
 type world struct {
+	badLines      int // malformed lines handed to the parser in generation 0 (expected: dropped at the input)
+	badBytes      int
+	overLong      int            // well-formed lines with a message over the limit (expected: passed, cut, counted as overflow)
+	chunkSize     map[string]int // chunk ID -> bytes, from transmissions and chunk files
+	chunkGen      map[string]int // chunk ID -> generation in which it was first seen
+	filesAtStart  map[int]map[string]bool
 	ackedAtReturn map[string]bool
 	diskAtReturn  map[string]bool
 	filesAtReturn int
@@ -257,6 +266,12 @@ func (w *world) newConsumerWith(parentLogger logger.Logger, decoder base.ChunkDe
 			return
 		}
 		w.trans = append(w.trans, transmit{env: opt.Name, conn: c.K, chunk: chunk.ID, stamps: stamps, tag: tag})
+		if w.chunkSize != nil {
+			w.chunkSize[chunk.ID] = len(chunk.Data)
+			if _, ok := w.chunkGen[chunk.ID]; !ok {
+				w.chunkGen[chunk.ID] = w.gen
+			}
+		}
 		if w.p.prop == "C06" {
 			// every chunk holds records of one key set only and carries the tag expanded from THAT key set
 			tagT := w.p.tagTemplate
@@ -319,6 +334,25 @@ func (w *world) ackedStamps() map[string]bool {
 	return out
 }
 
+// chunkFileIDs lists the chunk files under the queue root (and remembers their sizes).
+func (w *world) chunkFileIDs() map[string]bool {
+	out := map[string]bool{}
+	filepath.Walk(filepath.Join(w.root, "q"), func(path string, info os.FileInfo, err error) error {
+		if err != nil || info.IsDir() || info.Name() == ".id" || strings.HasSuffix(info.Name(), ".tmp") {
+			return nil
+		}
+		out[info.Name()] = true
+		if w.chunkSize != nil {
+			w.chunkSize[info.Name()] = int(info.Size())
+			if _, ok := w.chunkGen[info.Name()]; !ok {
+				w.chunkGen[info.Name()] = w.gen
+			}
+		}
+		return nil
+	})
+	return out
+}
+
 // diskStamps decodes every chunk file under the queue root.
 func (w *world) diskStamps() (map[string]bool, int) {
 	out := map[string]bool{}
@@ -358,6 +392,10 @@ func makeRun(p params) explore.RunFunc {
 		defs.IntermediateBufferMaxNumLogs = 500
 		if p.sinkBatch > 0 {
 			defs.IntermediateBufferMaxNumLogs = p.sinkBatch
+		}
+		defs.ForwarderRetryInterval = 10 * time.Second
+		if p.retryInterval > 0 {
+			defs.ForwarderRetryInterval = p.retryInterval
 		}
 		defs.IntermediateBufferMaxTotalBytes = 4 * 1024 * 1024
 		if p.sinkBytes > 0 {
@@ -417,6 +455,21 @@ func firstLines(s string, n int) string {
 	return strings.Join(l, " / ")
 }
 
+// badLine returns a malformed line of the given shape (all longer than the minimal record length)
+func badLine(shape string, ci int) string {
+	switch shape {
+	case "no-pri":
+		return fmt.Sprintf("this is not a syslog record at all, connection %d, just some text", ci)
+	case "bad-pri":
+		return fmt.Sprintf("<999999>1 2020-01-02T03:04:05.678Z host1 appA 77 src - c%d malformed", ci)
+	case "missing-fields":
+		return fmt.Sprintf("<13>1 2020-01-02T03:04:05.678Z host%d-and-nothing-else-behind-it", ci)
+	case "bad-utf8":
+		return fmt.Sprintf("<13>1 2020-01-02T03:04:05.678Z ho\xffst appA 77 src - c%d invalid utf-8 in the header", ci)
+	}
+	panic("harness bug: unknown malformed shape " + shape)
+}
+
 func syslogLine(host, app, source, stamp string) string {
 	return fmt.Sprintf("<13>1 2020-01-02T03:04:05.678Z %s %s 77 %s - %s payload of %s", host, app, source, stamp, stamp)
 }
@@ -429,6 +482,12 @@ func drive(w *world) explore.Verdict {
 	for g := 0; g < p.gens; g++ {
 		w.gen = g
 		last := g == p.gens-1
+		if w.filesAtStart == nil {
+			w.filesAtStart = map[int]map[string]bool{}
+			w.chunkSize = map[string]int{}
+			w.chunkGen = map[string]int{}
+		}
+		w.filesAtStart[g] = w.chunkFileIDs()
 		loader, err := run.NewLoaderFromConfigFile(w.cfgPath, fmt.Sprintf("g%d_", g))
 		if err != nil {
 			w.violate("config", "harness configuration rejected: %v", err)
@@ -489,7 +548,7 @@ func drive(w *world) explore.Verdict {
 							if o.pad > 0 {
 								line += " " + strings.Repeat("p", o.pad)
 							}
-							lr := &lineRec{conn: ci, seq: seqn, app: o.app, host: host, source: source, stamp: stamp, drop: o.drop, bytes: len(line)}
+							lr := &lineRec{gen: g, conn: ci, seq: seqn, app: o.app, host: host, source: source, stamp: stamp, drop: o.drop, bytes: len(line)}
 							w.lines = append(w.lines, lr)
 							vsched.Note("conn%d line %s app=%s drop=%v", ci, stamp, o.app, o.drop)
 							sink.Accept([]byte(line))
@@ -498,6 +557,23 @@ func drive(w *world) explore.Verdict {
 								vsched.Note("conn%d flush tick", ci)
 								sink.Flush()
 							}
+						case "bad":
+							// malformed input: rejected and counted by the input, never reaches a pipeline
+							line := badLine(o.shape, ci)
+							w.badLines++
+							w.badBytes += len(line)
+							vsched.Note("conn%d malformed line (%s)", ci, o.shape)
+							sink.Accept([]byte(line))
+						case "overlong":
+							seqn++
+							stamp := fmt.Sprintf("c%dr%d", ci, seqn)
+							line := syslogLine("host1", o.app, "src", stamp) + " " + strings.Repeat("o", defs.InputLogMaxMessageBytes)
+							lr := &lineRec{gen: g, conn: ci, seq: seqn, app: o.app, host: "host1", source: "src", stamp: stamp, bytes: len(line)}
+							w.lines = append(w.lines, lr)
+							w.overLong++
+							vsched.Note("conn%d over-long line %s", ci, stamp)
+							sink.Accept([]byte(line))
+							lr.accepted = true
 						case "flush":
 							sink.Flush()
 						case "settle":
@@ -585,6 +661,12 @@ func (w *world) newConfigFor(variant string) (text string, valid bool) {
 		return strings.Replace(strings.Replace(w.cfgText, "keys: [app]", "keys: [app, host]", 1), "metricKeys: [host]", "metricKeys: [source]", 1), false
 	case "maxfields-changed":
 		return strings.Replace(w.cfgText, "maxFields: 12", "maxFields: 13", 1), false
+	case "output-pair-added":
+		// a second output/buffer pair: the inputs keep allocating records for the old number of outputs, so the
+		// configuration is incompatible with the running inputs and must be refused
+		i := strings.Index(w.cfgText, "  - name: out1\n")
+		second := strings.Replace(strings.Replace(w.cfgText[i:], "name: out1", "name: out2", 1), "rootPath: "+filepath.Join(w.root, "q"), "rootPath: "+filepath.Join(w.root, "q2"), 1)
+		return w.cfgText + second, false
 	}
 	panic("unknown reload variant " + variant)
 }
@@ -869,16 +951,25 @@ func (w *world) checkMetrics(g int, acked map[string]bool, files int) {
 	}
 	pre := fmt.Sprintf("g%d_", g)
 	inPre := fmt.Sprintf("g%din_input_", g)
-	// input level: passed + dropped = lines handed to the parser (count and bytes)
-	nLines, nBytes := 0, 0
-	if g == 0 {
-		for _, l := range w.lines {
-			if l.accepted {
-				nLines++
-				nBytes += l.bytes
-			}
+	// the lines of this generation
+	var cur []*lineRec
+	for _, l := range w.lines {
+		if l.accepted && l.gen == g {
+			cur = append(cur, l)
 		}
 	}
+	// input level: passed + dropped = lines handed to the parser (count and bytes)
+	nLines, nBytes := 0, 0
+	for _, l := range cur {
+		nLines++
+		nBytes += l.bytes
+	}
+	nBad, nBadBytes, nOverLong := 0, 0, 0
+	if g == 0 {
+		nBad, nBadBytes, nOverLong = w.badLines, w.badBytes, w.overLong
+	}
+	nLines += nBad
+	nBytes += nBadBytes
 	inPassed := int(hutil.Sum(m, inPre+"passed_records_total"))
 	inDropped := int(hutil.Sum(m, inPre+"dropped_records_total"))
 	inPassedB := int(hutil.Sum(m, inPre+"passed_record_bytes_total"))
@@ -895,12 +986,16 @@ func (w *world) checkMetrics(g int, acked map[string]bool, files int) {
 	if pPassed+pDropped != inPassed {
 		w.violate("metrics:process-count", "generation %d: pipeline passed %d + dropped %d != input passed %d", g, pPassed, pDropped, inPassed)
 	}
+	if inDropped != nBad || inDroppedB != nBadBytes {
+		w.violate("metrics:input-dropped", "generation %d: input dropped %d records / %d bytes, %d malformed lines / %d bytes were handed to the parser", g, inDropped, inDroppedB, nBad, nBadBytes)
+	}
+	if ovf := int(hutil.Sum(m, inPre+"labelled_records_total", `label="overflow"`)); ovf != nOverLong {
+		w.violate("metrics:input-overflow", "generation %d: labelled_records_total{label=overflow} = %d, %d lines with an over-long message were handed to the parser", g, ovf, nOverLong)
+	}
 	wantDropped := 0
-	if g == 0 {
-		for _, l := range w.lines {
-			if l.accepted && l.drop {
-				wantDropped++
-			}
+	for _, l := range cur {
+		if l.drop {
+			wantDropped++
 		}
 	}
 	if pDropped != wantDropped {
@@ -912,12 +1007,8 @@ func (w *world) checkMetrics(g int, acked map[string]bool, files int) {
 	}
 	// attribution: per key set (app) the passed+dropped counters carry the records of that app
 	byApp := map[string]int{}
-	if g == 0 {
-		for _, l := range w.lines {
-			if l.accepted {
-				byApp[l.app]++
-			}
-		}
+	for _, l := range cur {
+		byApp[l.app]++
 	}
 	apps := make([]string, 0, len(byApp))
 	for a := range byApp {
@@ -934,16 +1025,16 @@ func (w *world) checkMetrics(g int, acked map[string]bool, files int) {
 	// attribution by the metric key fields (host, and source when configured)
 	type mk struct{ app, host, source string }
 	byMK := map[mk]int{}
+	filteredMK := map[mk]int{}
 	withSource := strings.Contains(w.p.metricKeys, "source")
-	if g == 0 {
-		for _, l := range w.lines {
-			if l.accepted {
-				k := mk{app: l.app, host: l.host}
-				if withSource {
-					k.source = l.source
-				}
-				byMK[k]++
-			}
+	for _, l := range cur {
+		k := mk{app: l.app, host: l.host}
+		if withSource {
+			k.source = l.source
+		}
+		byMK[k]++
+		if l.drop {
+			filteredMK[k]++
 		}
 	}
 	mks := make([]mk, 0, len(byMK))
@@ -959,6 +1050,11 @@ func (w *world) checkMetrics(g int, acked map[string]bool, files int) {
 		got := int(hutil.Sum(m, pre+"process_passed_records_total", frags...) + hutil.Sum(m, pre+"process_dropped_records_total", frags...))
 		if got != byMK[k] {
 			w.violate("metrics:metric-key-attribution", "generation %d: counters labelled %v account for %d records, %d records with these label values were received", g, frags, got, byMK[k])
+		}
+		// the custom (labelled) counters are attributed to the same label values
+		lfrags := append([]string{`label="filtered"`}, frags...)
+		if got := int(hutil.Sum(m, pre+"process_labelled_records_total", lfrags...)); got != filteredMK[k] {
+			w.violate("metrics:label-attribution", "generation %d: labelled_records_total%v = %d, the filter matched %d records with these label values", g, lfrags, got, filteredMK[k])
 		}
 	}
 	// buffer level, summed over pipelines: accepted + recovered = consumed + leftover + dropped + pending
@@ -1013,7 +1109,63 @@ func (w *world) checkMetrics(g int, acked map[string]bool, files int) {
 	if ackd > ackSeen || fwd > sentOK {
 		w.violate("metrics:output-vs-upstream", "generation %d: output forwarded %d / acknowledged %d chunks, the upstream received %d completely and acknowledged %d", g, fwd, ackd, sentOK, ackSeen)
 	}
-	_ = chunksMade
+	// chunks created = chunks the buffers took in, minus those recovered from disk at the start of the generation
+	recovered := len(w.filesAtStart[g])
+	if chunksMade != bIn-recovered {
+		w.violate("metrics:chunks-made", "generation %d: process_chunks_total = %d, the buffers count %d input chunks of which %d were files found at startup", g, chunksMade, bIn, recovered)
+	}
+	// every chunk created in this generation that the harness has seen (transmitted or in a file): if that is all of them,
+	// the byte counter is their total size
+	made := map[string]bool{}
+	for _, t := range w.trans {
+		made[t.chunk] = true
+	}
+	for id := range w.chunkFileIDs() {
+		made[id] = true
+	}
+	madeBytes, nMade := 0, 0
+	for id := range made {
+		if w.filesAtStart[g][id] || w.chunkGen[id] != g {
+			continue
+		}
+		nMade++
+		madeBytes += w.chunkSize[id]
+	}
+	if nMade == chunksMade {
+		if cb := int(hutil.Sum(m, pre+"process_chunk_bytes_total")); cb != madeBytes {
+			w.violate("metrics:chunk-bytes", "generation %d: process_chunk_bytes_total = %d, the %d chunks created hold %d bytes", g, cb, nMade, madeBytes)
+		}
+	}
+	// nothing is pending once the agent has stopped
+	for i := range w.envs {
+		if w.envGen[i] != g {
+			continue
+		}
+		vp := fmt.Sprintf("g%dv_vout%d_", g, i)
+		if pa := int(hutil.Sum(m, vp+"queued_chunks", `type="pendingAck"`)); pa != 0 {
+			w.violate("metrics:pending-ack-after-stop", "generation %d: output %d reports queued_chunks{type=pendingAck} = %d after the agent has stopped", g, i, pa)
+		}
+	}
+	// bytes acknowledged = sizes of the chunks the upstream acknowledged and the client accepted as such
+	ackBytes, wantAckBytes := 0, 0
+	for i, e := range w.envs {
+		if w.envGen[i] != g {
+			continue
+		}
+		ackBytes += int(hutil.Sum(m, fmt.Sprintf("g%dv_vout%d_", g, i)+"acknowledged_chunk_bytes_total"))
+		seen := map[string]bool{}
+		for _, c := range e.Conns {
+			for _, id := range c.Acked {
+				if !seen[id] {
+					seen[id] = true
+					wantAckBytes += w.chunkSize[id]
+				}
+			}
+		}
+	}
+	if ackd == ackSeen && ackBytes != wantAckBytes {
+		w.violate("metrics:ack-bytes", "generation %d: acknowledged_chunk_bytes_total = %d, the %d chunks the upstream acknowledged hold %d bytes", g, ackBytes, ackSeen, wantAckBytes)
+	}
 }
 
 func scenarios(prop string) []*explore.Scenario {
@@ -1075,7 +1227,7 @@ func scenarios(prop string) []*explore.Scenario {
 	}
 	if prop == "C17" {
 		out = nil
-		for _, v := range []string{"identical", "transform-changed", "yaml-error", "unknown-field", "keys-changed", "maxfields-changed"} {
+		for _, v := range []string{"identical", "transform-changed", "yaml-error", "unknown-field", "keys-changed", "maxfields-changed", "output-pair-added"} {
 			r := params{name: "reload/" + v, conns: [][]op{{L("appA"), L("appB"), L("appA")}, {L("appA")}}, gens: 1, chunkRecs: 1, memCap: 2, opt: fakeup.Options{}, reload: v, advances: 0}
 			add(r, 1, 2)
 		}
@@ -1093,6 +1245,25 @@ func scenarios(prop string) []*explore.Scenario {
 		// pooled-size records (over 1024 bytes) of different hosts through one pipeline: label values must not alias the
 		// recycled input buffers
 		P := func(host string) op { return op{kind: "line", app: "appA", host: host, pad: 1100} }
+		// malformed lines (each shape twice in a row, on both connections) and an over-long message between well-formed records
+		B := func(shape string) op { return op{kind: "bad", shape: shape} }
+		inf := params{name: "input-faults", conns: [][]op{
+			{L("appA"), B("no-pri"), B("no-pri"), L("appB"), B("bad-pri"), B("bad-pri"), {kind: "overlong", app: "appA"}},
+			{B("missing-fields"), B("missing-fields"), L("appA"), B("bad-utf8"), B("bad-utf8")}},
+			gens: 2, chunkRecs: 2, memCap: 2, opt: full, advances: 1}
+		add(inf, 1, 2)
+		// ACKs for unknown IDs and out of order
+		odd := full
+		odd.AckAlt = 6
+		ao := params{name: "1conn-4rec-1key/ack-unknown-and-out-of-order", conns: [][]op{{L("appA"), L("appA"), L("appA"), L("appA")}}, gens: 2, chunkRecs: 1, memCap: 4, opt: odd, advances: 1}
+		add(ao, 1, 2)
+		// a failed session is followed by the next one inside the same generation: retry interval below the 1 s tick
+		rt := params{name: "2conn-3rec/retry-within-generation", conns: [][]op{{L("appA"), L("appB")}, {L("appA")}}, gens: 2, chunkRecs: 1, memCap: 2, opt: full, retryInterval: 300 * time.Millisecond, advances: 3}
+		add(rt, 1, 2)
+		// filtered (labelled) records of two hosts, pooled-size, with pauses in which the input buffers are recycled
+		PD := func(host string, drop bool) op { return op{kind: "line", app: "appA", host: host, pad: 1100, drop: drop} }
+		lf := params{name: "pooled-filtered-hosts", conns: [][]op{{PD("alpha00", true), {kind: "settle"}, PD("bravo00", false), {kind: "settle"}, PD("bravo00", true), PD("alpha00", true), {kind: "settle"}, PD("charl00", true)}}, gens: 2, chunkRecs: 1, memCap: 2, opt: full, advances: 1}
+		add(lf, 0, 1)
 		f := params{name: "pooled-records-hosts", conns: [][]op{{P("alpha00"), {kind: "settle"}, P("bravo00"), {kind: "settle"}, P("alpha00"), P("charl00"), {kind: "settle"}, P("bravo00")}}, gens: 2, chunkRecs: 1, memCap: 2, opt: full, advances: 1}
 		add(f, 0, 1)
 	}
